@@ -124,7 +124,13 @@ Fixpoint event_loop (fuel : nat) (raw_len : N) (s : pstate) (bs : list byte) : o
       else Ok (s, bs)
   end.
 
-Definition drop_upto (n : nat) (bs : list byte) : list byte := skipn n bs.
+(* skipping / reading a count taken from the file: decided on N first, so that a huge declared length never
+   becomes a unary number (semantically rd_exact (N.to_nat n) and skipn (N.to_nat n)) *)
+Definition drop_upto (n : N) (bs : list byte) : list byte :=
+  if (N.of_nat (length bs) <=? n)%N then [] else skipn (N.to_nat n) bs.
+
+Definition rd_exact_N (n : N) : parser (list byte) :=
+  fun bs => if (N.of_nat (length bs) <? n)%N then Err EIo else rd_exact (N.to_nat n) bs.
 
 Definition game_of_state (s : pstate) (hashed : option nat) : game :=
   {| g_start := ps_start s; g_end := ps_end s; g_frames := ps_frames s; g_meta := ps_meta s;
@@ -144,7 +150,7 @@ Definition slp_read (o : opts) (bs0 : list byte) : outcome (game * list byte) :=
             else
               let skip := (raw_len - ps_bytes_read s - end_offset)%N in
               (* hashing: io::copy(take(skip)) stops silently at end of input; otherwise seek, which may go past the end *)
-              Ok (add_bytes_read s skip, drop_upto (N.to_nat skip) bs)
+              Ok (add_bytes_read s skip, drop_upto skip bs)
         end
       else Ok (s, bs)) ;;
   '(s, bs) <- event_loop (S (length bs)) raw_len s bs ;;
@@ -152,7 +158,7 @@ Definition slp_read (o : opts) (bs0 : list byte) : outcome (game * list byte) :=
   '(s, bs) <-
      (if (ps_bytes_read s <? raw_len)%N then
         let len := (raw_len - ps_bytes_read s)%N in
-        '(buf, bs) <- rd_exact (N.to_nat len) bs ;;
+        '(buf, bs) <- rd_exact_N len bs ;;
         if N.eqb len (1 + game_End_size (ver s)) && N.eqb (b2n (hd x00 buf)) Event_GameEnd
         then Ok (set_quirk s, bs) else Ok (s, bs)
       else Ok (s, bs)) ;;
